@@ -25,6 +25,7 @@ type c19Signer struct {
 }
 
 func (c c19Signer) OnChanged(l zerolog.Logger) { c.l.OnChanged(l) }
+func (c c19Signer) Load() error                { return c.s.load() }
 
 func (c c19Signer) State() c19gen.State {
 	c.s.mut.RLock()
